@@ -105,6 +105,10 @@ def gen(rng, tier):
             for _ in range(4):
                 t = random_text(rng, alphabet, 8)
                 inputs.append((f"LR@{mode},{rng.randint(0, 9)}", rng.choice("01"), t, {}))
+        for _ in range(4):
+            # one long token (> 50 bytes) of mixed 1-4 byte characters in a state that may not expect its kind
+            t = "".join(rng.choice("aλ€b𝄞é z") for _ in range(rng.randint(30, 70)))
+            inputs.append((f"LR@3,{rng.randint(0, 9)}", rng.choice("01"), t, {}))
         c.inputs = inputs
         lr.append(c)
         g = lf.Case(c.text, ["GLR", "LALR_RN"] + ["-"] * 8,
@@ -146,7 +150,7 @@ def run(rep, tier, seed):
 def check(rep, lr, glr, proofs_ok):
     rep.cov["rule"] = ("random BNF grammars (terminals of 1-4 UTF-8 bytes) and a corpus with regex terminals x {LR, GLR}; inputs: "
                        "empty, over the grammar alphabet, with control/multi-byte/whitespace-like characters, long repeats, random "
-                       "code points; lexers: default string lexer and three adversarial user lexers that ignore the expected set "
+                       "code points; lexers: default string lexer and four adversarial user lexers (one returning a single long multi-byte token) that ignore the expected set "
                        "(always STOP, position-derived kind with/without STOP at the end); outcome class under catch_unwind + "
                        "watchdog; distinct = (grammar, settings, lexer, input)")
     def scope(c):
